@@ -65,7 +65,9 @@ PROPS = {
             "rule": LOCALE_RULE},
     "C09": {"runs": lambda tier: [run("locale", ops=["loc_meta", "li_meta", "ext_meta"], features=["likely"])], "rule": LOCALE_RULE},
     "C10": {"runs": lambda tier: [run("locale", ops=["loc_hist", "loc_conv"], features=["likely"])], "rule": LOCALE_RULE},
-    "C11": {"runs": lambda tier: [run("langid", ops=["li_matches", "lang_matches"]), run("locale", ops=["loc_matches"], features=["likely"])], "rule": LOCALE_RULE},
+    "C11": {"runs": lambda tier: [run("langid", ops=["li_matches", "lang_matches"]), run("langid", ops=["li_matches", "lang_matches"], features=["likely"]),
+                                  run("locale", ops=["loc_matches"], features=["likely"])],
+            "rule": LOCALE_RULE + " || the language-identifier product domain (6 languages incl. pa / az / uz x 4 scripts x 5 regions x 2 variant lists, plus every variant list of length <= 3 over three variants; all pairs x 4 flag pairs) is run without and with likelysubtags"},
     "C12": {"runs": lambda tier: [run("langid", ops=["li_cmp", "li_eq_str", "li_routes"], features=["likely"]), run("locale", ops=["loc_cmp"], features=["likely"]),
                                   dict(run("subtags", ops=["lang", "script", "region", "variant"]), only_impl_prefix=["INCONSISTENT =="])],
             "rule": LOCALE_RULE + " || " + LANGID_RULE + " || li_routes: the same logical value built along seven routes (parse, from_parts, field assignment from default(), re-parse of to_string, "
